@@ -148,4 +148,63 @@ func cWriterHandle(p *Program, r *Report, rule string) {
 		}
 		return true, ""
 	})
+	// the handle: closed once, nothing forwarded afterwards, Write and Close exclude each other
+	for _, m := range []struct{ fn, fwd string }{{"msgWriterHandle.Close", "msgWriter.Close"}, {"msgWriterHandle.Write", "msgWriter.Write"}} {
+		hf := p.FuncOpt(m.fn)
+		if hf == nil {
+			continue
+		}
+		m := m
+		p.runTable(r, tableSpec{
+			Rule: rule + ".once", Fn: hf, Atoms: []Atom{boolAtom("msgWriterHandle.closed")},
+			Classify: func(v Valuation, pa *Path) string {
+				fw := pa.Calls(m.fwd)
+				lock := eventIndex(pa, 0, func(e *Event) bool { return isCall(e, "(*sync.Mutex).Lock") && argKey(e, 0) == "&msgWriterHandle.mu" })
+				unl := false
+				for _, e := range pa.Events {
+					if e.Kind == "defer" && e.Callee == "(*sync.Mutex).Unlock" && argKey(e, 0) == "&msgWriterHandle.mu" {
+						unl = true
+					}
+				}
+				if lock != 0 && !(lock > 0 && eventIndex(pa, 0, func(e *Event) bool { return e.Kind == "call" }) == lock) || !unl {
+					return "NOT-UNDER-THE-HANDLE-MUTEX"
+				}
+				set := false
+				for _, e := range pa.Events {
+					if e.Kind == "store" && e.AddrK == "msgWriterHandle.closed" {
+						if b, ok := avBool(e.Val); ok && b {
+							set = true
+						} else {
+							return "RESETS-CLOSED"
+						}
+					}
+				}
+				switch {
+				case len(fw) == 0 && retErr(pa) == "nonnil":
+					return "REFUSED"
+				case len(fw) == 1 && argKey(fw[0], 0) == "msgWriterHandle.mw":
+					if m.fn == "msgWriterHandle.Close" && !set {
+						return "FORWARDED-WITHOUT-MARKING-CLOSED"
+					}
+					return "FORWARDED"
+				}
+				return "OTHER"
+			},
+			Oracle: func(v Valuation) []string {
+				if v.Bool("msgWriterHandle.closed") {
+					return []string{"REFUSED"}
+				}
+				return []string{"FORWARDED"}
+			},
+			What: "a closed handle forwards nothing and returns an error; an open one forwards exactly once to its msgWriter under the handle's mutex (deferred unlock); Close marks the handle closed before forwarding and nothing ever clears the mark",
+		})
+	}
+	if f := p.FieldOpt("msgWriterHandle.closed"); f != nil {
+		for _, fa := range p.FieldAccesses(f) {
+			if fa.Write || fa.Addr {
+				fname := p.FuncName(fa.Fn)
+				r.Check(rule+".once", fname, "store msgWriterHandle.closed", p.InstrPos(fa.Instr), fname == "msgWriterHandle.Close", "the closed mark of a writer handle is written only by its Close", fname)
+			}
+		}
+	}
 }
